@@ -107,8 +107,11 @@ def run(prop: str, tier: str) -> int:
             hs = h1 if not quick else h1[oi::3]
             for k, h in enumerate(hs):
                 tid += 1
-                traces.append(L.run_trace(op, schedule=h, nested=True, nested_op=nested_ops[(k + oi) % len(nested_ops)],
-                                          tmpdir=tmpdir, trace_id=tid, rebuild=(k % 2 == 1)))
+                rb = (False, True, "split")[k % 3]
+                nop = nested_ops[(k + oi) % len(nested_ops)]
+                if rb == "split" and nop == "copy_to":
+                    nop = "copy"     # (copy_to of an EMPTY tree is refused with ValueError)
+                traces.append(L.run_trace(op, schedule=h, nested=True, nested_op=nop, tmpdir=tmpdir, trace_id=tid, rebuild=rb))
         validate(rep, traces, "forced: 1 writer (nested) x 1 reader, every operation")
         traces = []
         for oi, op in enumerate(L.OPS):      # the same on a TypedTree (the kind list belongs to the snapshot)
